@@ -16,6 +16,11 @@
 (* post-state is adopted and the host's request is followed from the log only *)
 (* ("lost") until it ends.  The C17 clauses are evaluated on what the store   *)
 (* and the services logged, for every line, in sync or not.                   *)
+(*                                                                            *)
+(* Extension (DESIGN.md 10.6): lines abegin / acall / aend are the ZooKeeper   *)
+(* calls of presence.kill_node and EndpointPresence.unregister_xxx run from an *)
+(* administrator's session; their clauses ext.kill.step / scope / window /     *)
+(* atomic / ... are conformance class (DRIFT or observation, never VIOLATION). *)
 EXTENDS Presence, TraceLib, Json, IOUtils
 
 Batch == JsonDeserialize(IOEnv.TRACE_FILE)
@@ -24,7 +29,10 @@ Traces == Batch.traces
 VARIABLES t, i
 
 ScnOf(j, D) == [hosts |-> j.hosts, conts |-> j.conts, inst |-> j.inst, paths |-> j.paths,
-                data |-> j.data, kidx |-> SetOf(j.kidx), allpaths |-> j.allpaths, defects |-> D]
+                data |-> j.data, kidx |-> SetOf(j.kidx), allpaths |-> j.allpaths, defects |-> D,
+                ext |-> [srv |-> j.ext.srv, plc |-> j.ext.plc, sch |-> j.ext.sch,
+                         sproot |-> j.ext.sproot, iorder |-> j.ext.iorder,
+                         sp |-> [h \in DOMAIN j.ext.sp |-> j.ext.sp[h]]]]
 
 CanonPost(S, j) ==
   [nodes  |-> [p \in DOMAIN j.nodes |-> [d |-> j.nodes[p].d, o |-> j.nodes[p].o]],
@@ -33,6 +41,7 @@ CanonPost(S, j) ==
    active |-> [h \in HostSet(S) |-> SetOf(j.active[h])],
    sess   |-> [h \in HostSet(S) |-> j.sess[h]],
    next   |-> [h \in HostSet(S) |-> j.next[h]],
+   anext  |-> j.anext,
    linger |-> SetOf(j.linger)]
 
 (* the ZooKeeper call the request in flight on h is about to make (the thread *)
@@ -42,6 +51,7 @@ NextOf(S, s, h) ==
 
 Proj(S, s) == [nodes |-> s.nodes, reg |-> s.reg, queue |-> s.queue, active |-> s.active,
                sess |-> s.sess, next |-> [h \in HostSet(S) |-> NextOf(S, s, h)],
+               anext |-> IF InACall(s) THEN <<ACallDesc(S, s).op, ACallDesc(S, s).path>> ELSE <<>>,
                linger |-> s.linger]
 
 FiredOf(line) == IF "fired" \in DOMAIN line THEN line.fired ELSE <<>>
@@ -54,8 +64,11 @@ FiredHostsOk(pre, line) ==
      /\ FiredOf(line)[k][2] \in DOMAIN pre.where
      /\ pre.where[FiredOf(line)[k][2]] = FiredOf(line)[k][1]
 
-(* the host of the line (reap lines have none: any host will do) *)
-HostOf(S, line) == IF "h" \in DOMAIN line THEN line.h ELSE S.hosts[1]
+(* the host of the line (reap and helper lines have none: any host will do) *)
+HostOf(S, line) == IF "h" \in DOMAIN line /\ line.ev # "abegin" THEN line.h ELSE S.hosts[1]
+
+(* lines of a helper run (extension) *)
+AEvents == {"abegin", "acall", "aend"}
 
 (* the model's step for this line: [ok, st] *)
 Exp(S, pre, line) ==
@@ -94,6 +107,20 @@ Exp(S, pre, line) ==
     [] line.ev = "reap" ->
          IF FiredHostsOk(pre, line) /\ CanReap(S, pre, line.s, FiredConts(line))
          THEN [ok |-> TRUE, st |-> ReapDo(S, pre, line.s, FiredConts(line))] ELSE bad
+    [] line.ev = "abegin" ->
+         IF pre.adm.ph = "idle" /\ line.h \in HostSet(S)
+            /\ (line.kind = "kill" \/ (line.kind = "unreg" /\ line.a \in DOMAIN S.paths))
+         THEN [ok |-> TRUE, st |-> IF line.kind = "kill" THEN KillBeginDo(S, pre, line.h)
+                                   ELSE UnregBeginDo(S, pre, line.h, line.a)] ELSE bad
+    [] line.ev = "acall" ->
+         IF /\ InACall(pre)
+            /\ line.s = AdmSess /\ pre.adm.kind = line.rk /\ pre.adm.h = line.rh
+            /\ ACallDesc(S, pre) = [op |-> line.op, path |-> line.path, res |-> line.res]
+            /\ FiredHostsOk(pre, line)
+            /\ FiredConts(line) \in AFireOrders(S, pre)
+         THEN [ok |-> TRUE, st |-> ACallDo(S, pre, FiredConts(line))] ELSE bad
+    [] line.ev = "aend" ->
+         IF CanAEnd(pre) /\ line.res = "ok" THEN [ok |-> TRUE, st |-> AEndDo(pre)] ELSE bad
     [] line.ev = "restart" ->
          IF CanRestart(S, pre, h, line.rord) /\ line.s = pre.nsess
          THEN [ok |-> TRUE, st |-> RestartDo(S, pre, h, line.rord)] ELSE bad
@@ -137,8 +164,16 @@ Resync(S, pre, line, post) ==
                  [q \in DOMAIN kept \cup won |-> IF q \in won THEN line.c ELSE kept[q]]],
               !.watches = {w \in pre.watches : /\ w.p \in DOMAIN post.nodes
                                                /\ ~(line.ev \in {"expire", "crash"} /\ w.h = h)},
-              !.pc[h] = pc,
-              !.fs[h] = fs,
+              !.pc[h] = IF line.ev \in AEvents THEN pre.pc[h] ELSE pc,
+              !.fs[h] = IF line.ev \in AEvents THEN pre.fs[h] ELSE fs,
+              !.adm = IF line.ev = "aend" THEN NoAdm
+                      ELSE IF line.ev = "abegin"
+                      THEN [NoAdm EXCEPT !.ph = "lost", !.kind = line.kind, !.h = line.h, !.clean = FALSE]
+                      ELSE IF line.ev = "acall"
+                      THEN [pre.adm EXCEPT !.ph = "lost", !.kind = line.rk, !.h = line.rh,
+                                           !.todo = <<>>, !.clean = FALSE]
+                      ELSE pre.adm,
+              !.nkill = IF line.ev = "abegin" THEN pre.nkill + 1 ELSE pre.nkill,
               !.order = IF line.ev = "submit" THEN Append(pre.order, line.c) ELSE pre.order,
               !.where = IF line.ev = "submit" /\ line.c \in DOMAIN pre.where
                         THEN [pre.where EXCEPT ![line.c] = h] ELSE pre.where,
@@ -204,7 +239,50 @@ Sibling(S, pre, line) ==
   /\ \E c2 \in ContSet(S) \ {line.c} :
         S.inst[c2] = S.inst[line.c] /\ \E h2 \in HostSet(S) : c2 \in pre.active[h2]
 
-Verdict(S, pre, line, post, explained) ==
+(* Extension clauses (conformance class).  The node a helper deletes must     *)
+(* name the host in its DATA at that instant, else the delete fell into the   *)
+(* get / delete window (ext.kill.window: an expected observation, see         *)
+(* Presence.tla ExtNamed); helpers only delete, and only in their scope.      *)
+InScope(S, line, path) ==
+  IF line.rk = "kill"
+  THEN \/ \E a \in DOMAIN S.paths : \E k \in S.kidx \cap DOMAIN S.paths[a] : S.paths[a][k] = path
+       \/ line.rh \in DOMAIN S.ext.sp /\ S.ext.sp[line.rh] = path
+  ELSE path \in AllPaths(S)
+
+HelperVerdict(S, pre, line, post, explained) ==
+  LET lost == pre.adm.ph = "lost"
+      step == F("ext.kill.step", explained \/ (lost /\ line.ev # "abegin")) IN
+  CASE line.ev = "acall" ->
+         [fail |-> step
+            \cup F("ext.kill.scope",
+                   /\ line.op \in {"get", "get_children", "delete"}
+                   /\ \A w \in Writes(line) : w.op = "delete" /\ InScope(S, line, w.path))
+            \cup F("ext.kill.window",
+                   \A w \in Applied(line) : w.op = "delete" /\ line.rh \in HostSet(S) =>
+                      NamesHost(S, pre, line.rh, w.path))
+            \cup F("ext.kill.waits", RetriesWait(pre, line, post))
+            \cup F("ext.kill.ephemeral", StateEph(post)),
+          ex |-> E("ext", TRUE) \cup E("ext.delete", \E w \in Applied(line) : w.op = "delete")
+                 \cup E("ext.fire", line.fired # <<>>)]
+    [] line.ev = "aend" ->
+         [fail |-> step
+            \cup F("ext.kill.atomic",
+                   pre.adm.ph = "run" /\ pre.adm.clean =>
+                      DOMAIN post.nodes = pre.adm.n0 \ pre.adm.k0),
+          ex |-> E("ext", TRUE) \cup E("ext.atomic", pre.adm.ph = "run" /\ pre.adm.clean)]
+    [] OTHER -> [fail |-> step, ex |-> E("ext", TRUE)]
+
+(* a trace with helper runs lies outside the statement of C17: from the first *)
+(* helper line on, the C17 clauses are reported as extension clauses          *)
+ExtName(f) ==
+  CASE f = "C17.noForeign" -> "ext.kill.window"
+    [] f = "C17.ephemeral" -> "ext.kill.ephemeral"
+    [] f = "C17.waits"     -> "ext.kill.waits"
+    [] f = "C17.ownOnly"   -> "ext.kill.ownOnly"
+    [] f = "C17.newerKept" -> "ext.kill.newerKept"
+    [] OTHER -> f
+
+Verdict0(S, pre, line, post, explained) ==
   LET h == HostOf(S, line)
       lost == pre.pc[h].ph = "lost"
       drift == F("drift.step", explained \/ lost)
@@ -226,6 +304,13 @@ Verdict(S, pre, line, post, explained) ==
     [] OTHER ->
          [fail |-> F("C17.ephemeral", StateEph(post)) \cup drift, ex |-> {}]
 
+Verdict(S, pre, line, post, explained) ==
+  IF line.ev \in AEvents THEN HelperVerdict(S, pre, line, post, explained)
+  ELSE LET v == Verdict0(S, pre, line, post, explained) IN
+       IF pre.nkill = 0 THEN v
+       ELSE [fail |-> {ExtName(f) : f \in v.fail},
+             ex |-> {IF e = "C17" THEN "ext" ELSE e : e \in v.ex}]
+
 TInit == /\ t \in DOMAIN Traces
          /\ i = 1
          /\ st = InitSt(ScnOf(Traces[t].scn, {}))
@@ -242,8 +327,9 @@ TNext ==
          ok1 == e1.ok /\ Proj(S1, e1.st) = post
          e2 == Exp(S2, st, line)
          ok2 == e2.ok /\ Proj(S2, e2.st) = post
-         v == Verdict(S1, st, line, post, ok1 \/ ok2) IN
-     /\ st' = IF ok1 THEN e1.st ELSE IF ok2 THEN e2.st ELSE Resync(S1, st, line, post)
+         v == Verdict(S1, st, line, post, ok1 \/ ok2)
+         nxt == IF ok1 THEN e1.st ELSE IF ok2 THEN e2.st ELSE Resync(S1, st, line, post) IN
+     /\ st' = IF line.ev \in AEvents THEN nxt ELSE Dirty(nxt)
      /\ PrintT(ToJson([tid |-> Traces[t].tid, i |-> i, fail |-> v.fail, ex |-> v.ex]))
 
 TSpec == TInit /\ [][TNext]_<<t, i, st>>
